@@ -50,7 +50,7 @@ fn ref_code(n: u8) -> MessageClass {
     }
 }
 
-//@ props=C05 tier=quick timeout=300 model=0
+//@ props=C05 tier=quick timeout=300 model=0 mem=4
 //@ functions=MessageClass::from(u8), u8::from(MessageClass), ResponseType::is_error
 //@ bounds=code byte: all 256 values as one symbolic u8
 //@ what=number->name->number identity, every byte against the IANA code registry, unassigned => Reserved(n), is_error <=> byte >= 0x80
@@ -74,7 +74,7 @@ fn c05_code_registry() {
     kani::cover!(n == 0x5F, "2.31 Continue");
 }
 
-//@ props=C05,C01 tier=quick timeout=300 model=0
+//@ props=C05,C01 tier=quick timeout=300 model=0 mem=4
 //@ functions=Header::set_version, Header::get_version, Header::set_type, Header::get_type, Header::set_token_length, Header::get_token_length, Header::from_raw, Header::to_raw
 //@ bounds=first header byte: all 256 values; version argument 0..3; all 4 types; token length 0..15
 //@ what=type <-> 2-bit field, version and token-length fields, each setter leaves the other fields alone, in both call orders
@@ -123,7 +123,7 @@ fn c05_type_version_bits() {
     kani::cover!(tn == 2, "decoded ACK");
 }
 
-//@ props=C05 tier=quick timeout=900 model=0 stub_fmt=0
+//@ props=C05 tier=quick timeout=900 model=0 stub_fmt=0 mem=8
 //@ functions=MessageClass::fmt (Display), Header::get_code
 //@ bounds=code byte: all 256 values; the real core::fmt machinery runs (no stub)
 //@ what=dotted text of a code is c.dd byte for byte
@@ -143,7 +143,7 @@ fn c05_code_display() {
     kani::cover!(n == 0xFF, "7.31");
 }
 
-//@ props=C05 tier=thorough timeout=3000 mem=30 model=0 stub_fmt=0
+//@ props=C05 tier=thorough timeout=3000 mem=24 model=0 stub_fmt=0
 //@ functions=Header::set_code
 //@ bounds=class digit 0..7, detail 00..31 as symbolic text "c.dd" (all 256 codes)
 //@ what=parsing the dotted text yields the byte c<<5|d and the class the registry assigns
@@ -162,7 +162,7 @@ fn c05_set_code_text() {
     kani::cover!(c == 7 && d == 31, "7.31");
 }
 
-//@ props=C04 tier=quick timeout=300 model=0
+//@ props=C04 tier=quick timeout=300 model=0 mem=4
 //@ functions=HeaderRaw::serialize_into
 //@ bounds=buffer capacity 0..8 (symbolic), all header field values
 //@ what=a buffer with capacity < 4 is refused with a packet-length error and left untouched; otherwise exactly the four header bytes are appended
